@@ -5,6 +5,7 @@ use serde_json::Value;
 pub mod deb822;
 pub mod edit;
 pub mod rel;
+pub mod relsat;
 
 #[derive(Serialize, Deserialize, Default, Debug, Clone)]
 pub struct Viol {
@@ -54,6 +55,10 @@ pub fn run_case(stage: &str, case: &Value, seed: u64) -> Outcome {
         "deb822_files" => deb822::run_files(case, seed),
         "deb822_edit" => edit::run_edge(case, seed),
         "rel_strings" => rel::run_strings(case, seed),
+        "rel_docs" => rel::run_docs(case, seed),
+        "rel_wrap" => rel::run_wrap(case, seed),
+        "rel_sat" => relsat::run_sat(case, seed),
+        "rel_lossy_rt" => relsat::run_lossy_rt(case, seed),
         _ => panic!("unknown stage {}", stage),
     }
 }
@@ -72,6 +77,7 @@ pub fn features(stage: &str, case: &Value) -> Vec<String> {
         "deb822_strings" => deb822::string_features(case),
         "deb822_docs" => deb822::doc_features(case),
         "rel_strings" => rel::string_features(case),
+        "rel_docs" | "rel_wrap" | "rel_lossy_rt" => rel::doc_features(case),
         _ => vec![],
     }
 }
